@@ -8,8 +8,10 @@ namespace Echse.Daemon
 /-- number of live children of the task `sid` -/
 def liveCount (l : List Child) (sid : Nat) : Nat := (l.filter (fun c => c.live && c.sid == sid)).length
 
-/-- per-task well-formedness; `s` supplies the clock, the counters and the user list -/
-structure TInv (s : St) (t : DTask) : Prop where
+/-- per-task well-formedness; `s` supplies the clock, the counters and the user list.  `p = true`: the
+periodic callback of the task is pending in the current loop iteration (then the task may be waiting for
+nothing else: `wait` is suspended until the callback has run) -/
+structure TInvP (p : Bool) (s : St) (t : DTask) : Prop where
   sid_lt : t.sid < s.nextSid
   seq_lt : t.seq < s.perseq
   owner_ok : t.owner ≠ notAUid ∧ s.users.contains t.owner = true
@@ -23,19 +25,30 @@ structure TInv (s : St) (t : DTask) : Prop where
   /-- loaded without a future occurrence: `unsched` is queued for the next iteration -/
   pend : t.active = true → t.cbUnsched = true → t.nrun = 0 ∧ ∃ a, t.due = some a ∧ a ≤ s.now
   /-- a task without a watcher to wait for is waiting for its children -/
-  wait : (t.active = false ∨ (t.resched = false ∧ t.cbUnsched = false)) → t.nsim ≠ 0
+  wait : p = false → (t.active = false ∨ (t.resched = false ∧ t.cbUnsched = false)) → t.nsim ≠ 0
+  ptab : p = true → t.inTable = true
 
-/-- well-formedness of a daemon state -/
-structure Inv (s : St) : Prop where
+/-- per-task well-formedness between loop iterations -/
+abbrev TInv (s : St) (t : DTask) : Prop := TInvP false s t
+
+/-- well-formedness of a daemon state; `pend` = the watchers whose callback is pending -/
+structure InvP (pend : List Nat) (s : St) : Prop where
   sidU : SidU s.tasks
   uidU : ∀ a ∈ s.tasks, ∀ b ∈ s.tasks, a.inTable = true → b.inTable = true → a.uid = b.uid → a = b
   seqU : ∀ a ∈ s.tasks, ∀ b ∈ s.tasks, a.seq = b.seq → a = b
-  tinv : ∀ t ∈ s.tasks, TInv s t
+  tinv : ∀ t ∈ s.tasks, TInvP (pend.contains t.sid) s t
   kids : ∀ c ∈ s.children, c.live = true → ∃ t ∈ s.tasks, t.sid = c.sid
   count : ∀ t ∈ s.tasks, t.nsim = liveCount s.children t.sid
 
-theorem TInv.mono {s s' : St} {t : DTask} (h : TInv s t) (h1 : s.nextSid ≤ s'.nextSid)
-    (h2 : s.perseq ≤ s'.perseq) (h3 : s'.users = s.users) (h4 : s'.now = s.now) : TInv s' t where
+/-- well-formedness of a daemon state between loop iterations -/
+abbrev Inv (s : St) : Prop := InvP [] s
+
+theorem Inv.tinv' {s : St} (h : Inv s) {t : DTask} (ht : t ∈ s.tasks) : TInv s t := by
+  have := h.tinv t ht
+  simpa using this
+
+theorem TInvP.mono {p : Bool} {s s' : St} {t : DTask} (h : TInvP p s t) (h1 : s.nextSid ≤ s'.nextSid)
+    (h2 : s.perseq ≤ s'.perseq) (h3 : s'.users = s.users) (h4 : s'.now = s.now) : TInvP p s' t where
   sid_lt := Nat.lt_of_lt_of_le h.sid_lt h1
   seq_lt := Nat.lt_of_lt_of_le h.seq_lt h2
   owner_ok := by rw [h3]; exact h.owner_ok
@@ -46,6 +59,10 @@ theorem TInv.mono {s s' : St} {t : DTask} (h : TInv s t) (h1 : s.nextSid ≤ s'.
   drain := h.drain
   pend := by rw [h4]; exact h.pend
   wait := h.wait
+  ptab := h.ptab
+
+theorem TInvP.frame {p : Bool} {s s' : St} {t : DTask} (h : TInvP p s t) (hf : Frame s s') : TInvP p s' t :=
+  h.mono (Nat.le_of_eq hf.nextSid.symm) (Nat.le_of_eq hf.perseq.symm) hf.users hf.now
 
 theorem Inv_init (m : Nat) : Inv { me := m } where
   sidU := by simp [SidU]
@@ -56,9 +73,10 @@ theorem Inv_init (m : Nat) : Inv { me := m } where
   count := by intro a h; cases h
 
 /-- same table and children, counters not smaller, same clock and users -/
-theorem Inv_frame {s s' : St} (h : Inv s) (ht : s'.tasks = s.tasks) (hc : s'.children = s.children)
+theorem InvP_frame {pend : List Nat} {s s' : St} (h : InvP pend s) (ht : s'.tasks = s.tasks)
+    (hc : s'.children = s.children)
     (h1 : s.nextSid ≤ s'.nextSid) (h2 : s.perseq ≤ s'.perseq) (h3 : s'.users = s.users)
-    (h4 : s'.now = s.now) : Inv s' where
+    (h4 : s'.now = s.now) : InvP pend s' where
   sidU := by rw [ht]; exact h.sidU
   uidU := by rw [ht]; exact h.uidU
   seqU := by rw [ht]; exact h.seqU
@@ -150,5 +168,582 @@ theorem liveCount_zero {l : List Child} {x : Nat} (h : liveCount l x = 0) :
 theorem liveCount_append (l l' : List Child) (x : Nat) :
     liveCount (l ++ l') x = liveCount l x + liveCount l' x := by
   simp [liveCount, List.filter_append]
+
+/-! ### a general preservation lemma: the table is transformed record by record -/
+
+theorem sidU_filterMap' {l : List DTask} (g : DTask → Option DTask)
+    (hg : ∀ x ∈ l, ∀ y, g x = some y → y.sid = x.sid) (h : SidU l) : SidU (l.filterMap g) := by
+  unfold SidU at *
+  induction l with
+  | nil => simp
+  | cons a l ih =>
+    rw [List.map_cons, List.nodup_cons] at h
+    rw [List.filterMap_cons]
+    have ih' := ih (fun x hx => hg x (List.mem_cons_of_mem _ hx)) h.2
+    cases hga : g a with
+    | none => exact ih'
+    | some y =>
+      simp only [List.map_cons, List.nodup_cons]
+      refine ⟨?_, ih'⟩
+      intro hm
+      rw [List.mem_map] at hm
+      obtain ⟨z, hz, hzs⟩ := hm
+      rw [List.mem_filterMap] at hz
+      obtain ⟨w, hw, hgw⟩ := hz
+      apply h.1
+      rw [List.mem_map]
+      exact ⟨w, hw, by rw [← hg w (List.mem_cons_of_mem _ hw) z hgw, hzs, hg a List.mem_cons_self y hga]⟩
+
+theorem InvP_of {s s' : St} {pend pend' : List Nat} (h : InvP pend s) (g : DTask → Option DTask)
+    (htasks : s'.tasks = s.tasks.filterMap g)
+    (hg : ∀ x ∈ s.tasks, ∀ y, g x = some y →
+      y.sid = x.sid ∧ y.uid = x.uid ∧ (y.inTable = true → x.inTable = true) ∧
+      TInvP (pend'.contains x.sid) s' y ∧ y.nsim = liveCount s'.children x.sid)
+    (hseq : ∀ a ∈ s'.tasks, ∀ b ∈ s'.tasks, a.seq = b.seq → a = b)
+    (hk : ∀ c ∈ s'.children, c.live = true → ∃ x ∈ s.tasks, x.sid = c.sid ∧ g x ≠ none) : InvP pend' s' where
+  sidU := by
+    rw [htasks]
+    exact sidU_filterMap' g (fun x hx y hxy => (hg x hx y hxy).1) h.sidU
+  uidU := by
+    rw [htasks]
+    exact uniq_filterMap (fun t => t.uid) (fun t => t.inTable = true) g
+      (fun x hx y hy => ⟨(hg x hx y hy).2.1, (hg x hx y hy).2.2.1⟩)
+      (fun a ha b hb pa pb hk => h.uidU a ha b hb pa pb hk)
+  seqU := hseq
+  tinv := by
+    rw [htasks]
+    intro y hy
+    rw [List.mem_filterMap] at hy
+    obtain ⟨x, hx, hgx⟩ := hy
+    rw [(hg x hx y hgx).1]
+    exact (hg x hx y hgx).2.2.2.1
+  kids := by
+    intro c hc hl
+    obtain ⟨x, hx, hs, hne⟩ := hk c hc hl
+    cases hgx : g x with
+    | none => exact absurd hgx hne
+    | some y =>
+      refine ⟨y, ?_, ?_⟩
+      · rw [htasks, List.mem_filterMap]; exact ⟨x, hx, hgx⟩
+      · rw [(hg x hx y hgx).1, hs]
+  count := by
+    rw [htasks]
+    intro y hy
+    rw [List.mem_filterMap] at hy
+    obtain ⟨x, hx, hgx⟩ := hy
+    rw [(hg x hx y hgx).2.2.2.2, (hg x hx y hgx).1]
+
+/-- `seq` kept by the transformation -/
+theorem seqU_keep {l : List DTask} (g : DTask → Option DTask)
+    (hg : ∀ x ∈ l, ∀ y, g x = some y → y.seq = x.seq)
+    (h : ∀ a ∈ l, ∀ b ∈ l, a.seq = b.seq → a = b) :
+    ∀ a ∈ l.filterMap g, ∀ b ∈ l.filterMap g, a.seq = b.seq → a = b := by
+  intro a ha b hb hab
+  exact uniq_filterMap (fun t => t.seq) (fun _ => True) g (fun x hx y hy => ⟨hg x hx y hy, fun _ => trivial⟩)
+    (fun a ha b hb _ _ hk => h a ha b hb hk) a ha b hb trivial trivial hab
+
+/-! ### the three stages of a loop iteration on one record -/
+
+theorem isDue_iff {now : Nat} {t : DTask} :
+    isDue now t = true ↔ t.active = true ∧ ∃ a, t.due = some a ∧ a < now := by
+  unfold isDue
+  cases hd : t.due with
+  | none => simp
+  | some a => simp
+
+/-- re-arming a due watcher -/
+theorem TInvP_rearm {s s' : St} {now : Nat} {x : DTask} (h : TInvP false s x) (hd : isDue now x = true)
+    (h1 : s.nextSid ≤ s'.nextSid) (h2 : s.perseq ≤ s'.perseq) (h3 : s'.users = s.users)
+    (h4 : s'.now = now) : TInvP true s' (rearm now x) := by
+  obtain ⟨hact, a, hdue, halt⟩ := isDue_iff.mp hd
+  unfold rearm
+  by_cases hr : x.resched = true
+  · obtain ⟨a1, a2, a3, a4, a5, a6, a7⟩ := h.armed hr
+    simp only [hr, if_true]
+    cases hdw : x.occ.dropWhile (· < now) with
+    | nil =>
+      rw [resched_nil hdw]
+      have : ¬ x.nrun = 0 := by omega
+      rw [if_neg this]
+      exact {
+        sid_lt := Nat.lt_of_lt_of_le h.sid_lt h1
+        seq_lt := Nat.lt_of_lt_of_le h.seq_lt h2
+        owner_ok := by rw [h3]; exact h.owner_ok
+        sorted := List.Pairwise.nil
+        armed := by intro hh; cases hh
+        done := fun _ _ => ⟨rfl, rfl⟩
+        act_tab := h.act_tab
+        drain := fun _ _ _ => rfl
+        pend := by intro _ hh; rw [a3] at hh; cases hh
+        wait := by intro hh; cases hh
+        ptab := fun _ => a1 }
+    | cons e r =>
+      rw [resched_cons hdw]
+      have he := dropWhile_head_not _ _ _ _ hdw
+      simp at he
+      exact {
+        sid_lt := Nat.lt_of_lt_of_le h.sid_lt h1
+        seq_lt := Nat.lt_of_lt_of_le h.seq_lt h2
+        owner_ok := by rw [h3]; exact h.owner_ok
+        sorted := by
+          have := List.Pairwise.sublist (List.dropWhile_sublist (fun o => decide (o < now))) h.sorted
+          rw [hdw] at this; exact this
+        armed := fun _ => ⟨a1, a2, a3, rfl, rfl, by rw [h4]; exact he, Nat.le_add_left 1 _⟩
+        done := by intro hh; rw [hr] at hh; cases hh
+        act_tab := h.act_tab
+        drain := by intro _ hh; rw [hr] at hh; cases hh
+        pend := by intro _ hh; rw [a3] at hh; cases hh
+        wait := by intro hh; cases hh
+        ptab := fun _ => a1 }
+  · have hr' : x.resched = false := by simpa using hr
+    rw [if_neg hr]
+    exact {
+      sid_lt := Nat.lt_of_lt_of_le h.sid_lt h1
+      seq_lt := Nat.lt_of_lt_of_le h.seq_lt h2
+      owner_ok := by rw [h3]; exact h.owner_ok
+      sorted := h.sorted
+      armed := by intro hh; rw [hr'] at hh; cases hh
+      done := h.done
+      act_tab := by intro hh; cases hh
+      drain := by intro hh; cases hh
+      pend := by intro hh; cases hh
+      wait := by intro hh; cases hh
+      ptab := fun _ => h.act_tab hact }
+
+/-- a watcher that is not due stays well-formed when the clock advances -/
+theorem TInvP_notDue {s s' : St} {now : Nat} {x : DTask} (h : TInvP false s x) (hd : isDue now x = false)
+    (h1 : s.nextSid ≤ s'.nextSid) (h2 : s.perseq ≤ s'.perseq) (h3 : s'.users = s.users)
+    (h4 : s'.now = now) (hnow : s.now ≤ now) : TInvP false s' x where
+  sid_lt := Nat.lt_of_lt_of_le h.sid_lt h1
+  seq_lt := Nat.lt_of_lt_of_le h.seq_lt h2
+  owner_ok := by rw [h3]; exact h.owner_ok
+  sorted := h.sorted
+  armed := by
+    intro hr
+    obtain ⟨a1, a2, a3, a4, a5, a6, a7⟩ := h.armed hr
+    refine ⟨a1, a2, a3, a4, a5, ?_, a7⟩
+    rw [h4]
+    rcases Nat.lt_or_ge x.cur now with hlt | hge
+    · have : isDue now x = true := isDue_iff.mpr ⟨a2, x.cur, a4, hlt⟩
+      rw [this] at hd; cases hd
+    · exact hge
+  done := h.done
+  act_tab := h.act_tab
+  drain := h.drain
+  pend := by
+    intro ha hc
+    obtain ⟨b1, a, b2, b3⟩ := h.pend ha hc
+    exact ⟨b1, a, b2, by rw [h4]; omega⟩
+  wait := h.wait
+  ptab := by intro hh; cases hh
+
+/-- the pending callback has run -/
+theorem TInvP_cbTask {s : St} {fail : Bool} {x y : DTask} (h : TInvP true s x) (hy : cbTask fail x = some y) :
+    TInvP false s y := by
+  have hit := h.ptab rfl
+  unfold cbTask at hy
+  rw [if_neg (by simp [hit])] at hy
+  split at hy
+  · rename_i hcb
+    split at hy
+    · rename_i hn
+      cases hy
+      exact {
+        sid_lt := h.sid_lt, seq_lt := h.seq_lt, owner_ok := h.owner_ok, sorted := h.sorted
+        armed := by intro hr; have := (h.armed hr).2.2.1; rw [hcb] at this; cases this
+        done := h.done
+        act_tab := by intro hh; cases hh
+        drain := by intro hh; cases hh
+        pend := by intro hh; cases hh
+        wait := fun _ _ => hn
+        ptab := by intro hh; cases hh }
+    · cases hy
+  · split at hy
+    · cases hy
+      exact {
+        sid_lt := h.sid_lt, seq_lt := h.seq_lt, owner_ok := h.owner_ok, sorted := h.sorted
+        armed := h.armed, done := h.done, act_tab := h.act_tab, drain := h.drain, pend := h.pend
+        wait := fun _ _ => Nat.succ_ne_zero _
+        ptab := by intro hh; cases hh }
+    · split at hy
+      · cases hy
+      · rename_i hz
+        cases hy
+        exact {
+          sid_lt := h.sid_lt, seq_lt := h.seq_lt, owner_ok := h.owner_ok, sorted := h.sorted
+          armed := h.armed, done := h.done, act_tab := h.act_tab, drain := h.drain, pend := h.pend
+          wait := by
+            intro _ hc hn
+            simp only [Bool.and_eq_true, Bool.not_eq_eq_eq_not, Bool.not_true, beq_iff_eq, not_and] at hz
+            by_cases hr : x.resched = true
+            · have := (h.armed hr).2.1
+              rcases hc with hc | hc
+              · rw [this] at hc; cases hc
+              · rw [hr] at hc; cases hc.1
+            · exact hz (by simpa using hr) hn
+          ptab := by intro hh; cases hh }
+
+/-! ### the stages on the state -/
+
+theorem mem_contains_iff {L : List Nat} {x : Nat} : L.contains x = true ↔ x ∈ L := by simp
+
+/-- `periodics_reify` -/
+theorem InvP_reify {s : St} {now : Nat} (h : Inv s) (hnow : s.now ≤ now) :
+    ∃ s1 L, reify now (s.tasks.length + 1) { s with now := now } [] = (s1, L) ∧ L.Nodup ∧ InvP L s1 ∧
+      Frame { s with now := now } s1 ∧ s1.children = s.children := by
+  have hu0 : SidU ({ s with now := now } : St).tasks := h.sidU
+  obtain ⟨L, hr, hnd, hmem⟩ := reify_spec now (s.tasks.length + 1) { s with now := now } [] hu0
+    (by intro t _ h; cases h)
+    (by have := List.length_filter_le (isDue now) s.tasks; simp only []; omega)
+  refine ⟨{ s with now := now, tasks := s.tasks.map (fun t => if isDue now t then rearm now t else t) }, L,
+    by rw [hr]; rfl, hnd, ?_, ⟨rfl, rfl, rfl, rfl, rfl, rfl, rfl⟩, rfl⟩
+  have hcont : ∀ x ∈ s.tasks, L.contains x.sid = isDue now x := by
+    intro x hx
+    cases hd : isDue now x with
+    | true => exact mem_contains_iff.mpr ((hmem _).mpr ⟨x, hx, hd, rfl⟩)
+    | false =>
+      cases hc : L.contains x.sid with
+      | false => rfl
+      | true =>
+        obtain ⟨t, ht, hdt, hs⟩ := (hmem _).mp (mem_contains_iff.mp hc)
+        rw [h.sidU.inj ht hx hs, hd] at hdt; cases hdt
+  apply InvP_of h (fun t => some (if isDue now t then rearm now t else t))
+  · simp only []; rw [List.filterMap_eq_map']
+  · intro x hx y hy
+    simp only [Option.some.injEq] at hy
+    have hx' := h.tinv' hx
+    rw [hcont x hx]
+    by_cases hd : isDue now x = true
+    · rw [if_pos hd] at hy; subst hy
+      rw [hd]
+      have hact := (isDue_iff.mp hd).1
+      refine ⟨rearm_sid _ _, ?_, ?_, TInvP_rearm hx' hd (Nat.le_refl _) (Nat.le_refl _) rfl rfl, ?_⟩
+      · unfold rearm; split
+        · cases hdw : x.occ.dropWhile (· < now) with
+          | nil => rw [resched_nil hdw]; split <;> rfl
+          | cons e r => rw [resched_cons hdw]
+        · rfl
+      · intro _; exact hx'.act_tab hact
+      · have : (rearm now x).nsim = x.nsim := by
+          unfold rearm; split
+          · cases hdw : x.occ.dropWhile (· < now) with
+            | nil => rw [resched_nil hdw]; split <;> rfl
+            | cons e r => rw [resched_cons hdw]
+          · rfl
+        rw [this]; exact h.count x hx
+    · have hd' : isDue now x = false := by simpa using hd
+      rw [if_neg hd] at hy; subst hy
+      rw [hd']
+      exact ⟨rfl, rfl, id, TInvP_notDue hx' hd' (Nat.le_refl _) (Nat.le_refl _) rfl rfl hnow, h.count x hx⟩
+  · simp only []
+    rw [← List.filterMap_eq_map']
+    apply seqU_keep _ _ h.seqU
+    intro x hx y hy
+    simp only [Option.some.injEq] at hy
+    subst hy
+    split
+    · unfold rearm; split
+      · cases hdw : x.occ.dropWhile (· < now) with
+        | nil => rw [resched_nil hdw]; split <;> rfl
+        | cons e r => rw [resched_cons hdw]
+      · rfl
+    · rfl
+  · intro c hc hl
+    obtain ⟨t, ht, hs⟩ := h.kids c hc hl
+    exact ⟨t, ht, hs, by simp⟩
+
+/-- `chld_cb`, possibly while callbacks are pending -/
+theorem InvP_exit {s : St} {pend : List Nat} (k : Nat) (h : InvP pend s) :
+    InvP pend (childExitPending s k pend).1 := by
+  cases hc : s.children[k]? with
+  | none => rw [exit_none s k pend (by intro c hc'; rw [hc] at hc'; cases hc')]; exact h
+  | some c =>
+    by_cases hl : ¬ c.live = true
+    · rw [exit_none s k pend (by intro c' hc'; rw [hc] at hc'; cases hc'; simpa using hl)]; exact h
+    have hl : c.live = true := by simpa using hl
+    obtain ⟨ht, hch, hf⟩ := exit_spec s k pend h.sidU c hc hl
+    have hcm : c ∈ s.children := List.mem_of_getElem? hc
+    apply InvP_of h _ ht
+    · intro x hx y hy
+      have hx' := h.tinv x hx
+      have hcnt := liveCount_kill s.children k c hc hl x.sid
+      rw [hch]
+      by_cases hxs : x.sid = c.sid
+      · have hb : (x.sid == c.sid) = true := by simpa using hxs
+        have hcount := h.count x hx
+        rw [if_pos hxs.symm] at hcnt
+        unfold exitTask at hy
+        rw [if_pos hb] at hy
+        have key : ∀ (hw : pend.contains x.sid = false →
+              (x.active = false ∨ (x.resched = false ∧ x.cbUnsched = false)) → x.nsim - 1 ≠ 0),
+            y = { x with nsim := x.nsim - 1 } →
+            y.sid = x.sid ∧ y.uid = x.uid ∧ (y.inTable = true → x.inTable = true) ∧
+              TInvP (pend.contains x.sid) (childExitPending s k pend).1 y ∧
+              y.nsim = liveCount (kill s.children k) x.sid := by
+          intro hw hyx
+          subst hyx
+          refine ⟨rfl, rfl, id, ?_, by simp only []; omega⟩
+          exact TInvP.frame {
+            sid_lt := hx'.sid_lt, seq_lt := hx'.seq_lt, owner_ok := hx'.owner_ok, sorted := hx'.sorted
+            armed := hx'.armed, done := hx'.done, act_tab := hx'.act_tab, drain := hx'.drain, pend := hx'.pend
+            wait := hw, ptab := hx'.ptab } hf
+        split at hy
+        · rename_i hit
+          split at hy
+          · cases hy
+          · rename_i hz
+            refine key ?_ (Option.some.inj hy).symm
+            intro _ _; simpa using hz
+        · rename_i hit
+          split at hy
+          · cases hy
+          · rename_i hz
+            refine key ?_ (Option.some.inj hy).symm
+            intro hp hcond hn
+            simp only [Bool.and_eq_true, Bool.not_eq_eq_eq_not, Bool.not_true, beq_iff_eq, not_and,
+              Bool.not_eq_false] at hz
+            by_cases hr : x.resched = true
+            · have := (hx'.armed hr).2.1
+              rcases hcond with hcond | hcond
+              · rw [this] at hcond; cases hcond
+              · rw [hr] at hcond; cases hcond.1
+            · have := hz ⟨by simpa using hr, hn⟩
+              rw [hp] at this; cases this
+      · have hb : (x.sid == c.sid) = false := by simpa using hxs
+        unfold exitTask at hy
+        rw [hb] at hy
+        simp only [Bool.false_eq_true, if_false, Option.some.injEq] at hy
+        subst hy
+        refine ⟨rfl, rfl, id, hx'.frame hf, ?_⟩
+        rw [if_neg (fun e => hxs e.symm)] at hcnt
+        rw [h.count x hx]; omega
+    · rw [ht]
+      apply seqU_keep _ _ h.seqU
+      intro x hx y hy
+      unfold exitTask at hy
+      split at hy
+      · split at hy
+        · split at hy
+          · cases hy
+          · cases hy; rfl
+        · split at hy
+          · cases hy
+          · cases hy; rfl
+      · cases hy; rfl
+    · intro c' hc' hl'
+      rw [hch] at hc'
+      have hc'm := mem_kill_live hc' hl'
+      obtain ⟨x, hx, hs⟩ := h.kids c' hc'm hl'
+      refine ⟨x, hx, hs, ?_⟩
+      intro hnone
+      have hcnt := liveCount_kill s.children k c hc hl x.sid
+      have hcount := h.count x hx
+      have hpos : 1 ≤ liveCount (kill s.children k) c'.sid := liveCount_pos hc' hl'
+      rw [← hs] at hpos
+      unfold exitTask at hnone
+      split at hnone
+      · rename_i hb
+        have hxs : c.sid = x.sid := by have : x.sid = c.sid := by simpa using hb
+                                       exact this.symm
+        rw [if_pos hxs] at hcnt
+        split at hnone
+        · split at hnone
+          · rename_i hz
+            have : x.nsim - 1 = 0 := by simpa using hz
+            omega
+          · cases hnone
+        · split at hnone
+          · rename_i hz
+            simp only [Bool.and_eq_true, beq_iff_eq] at hz
+            omega
+          · cases hnone
+      · cases hnone
+
+/-- one pending callback -/
+theorem InvP_cbStep {s : St} {sid : Nat} {rest : List Nat} (sps : List Spawn) (h : InvP (sid :: rest) s)
+    (hn : sid ∉ rest) : InvP rest (cbStep (s, sps) sid).1 := by
+  obtain ⟨s', he, ht, hch, hf⟩ := cbStep_spec s sps sid h.sidU
+  rw [he]
+  simp only []
+  have hrest : ∀ x : DTask, x.sid ≠ sid → (sid :: rest).contains x.sid = rest.contains x.sid := by
+    intro x hx
+    simp only [List.contains_cons]
+    have : (x.sid == sid) = false := by simpa using hx
+    rw [this]; rfl
+  have hkids_sid : ∀ c ∈ (onGet s sid (cbKids s.spawnFail)), c.sid = sid := by
+    intro c hc
+    cases hg : s.get sid with
+    | none => rw [onGet_none _ hg] at hc; cases hc
+    | some t =>
+      rw [onGet_some _ hg] at hc
+      simp only [cbKids] at hc
+      split at hc
+      · simp only [List.mem_singleton] at hc
+        rw [hc]; exact (get_some_mem hg).2
+      · cases hc
+  apply InvP_of h _ ht
+  · intro x hx y hy
+    have hx' := h.tinv x hx
+    rw [hch, liveCount_append]
+    by_cases hxs : x.sid = sid
+    · have hb : (x.sid == sid) = true := by simpa using hxs
+      rw [if_pos hb] at hy
+      have hg : s.get sid = some x := hxs ▸ get_of_mem h.sidU hx
+      have hp : (sid :: rest).contains x.sid = true := by simp [hxs]
+      have hq : rest.contains x.sid = false := by rw [hxs]; simpa using hn
+      rw [hp] at hx'
+      rw [hq, onGet_some _ hg]
+      refine ⟨cbTask_sid hy, ?_, ?_, (TInvP_cbTask hx' hy).frame hf, ?_⟩
+      · unfold cbTask at hy
+        split at hy
+        · cases hy; rfl
+        split at hy
+        · split at hy
+          · cases hy; rfl
+          · cases hy
+        · split at hy
+          · cases hy; rfl
+          · split at hy
+            · cases hy
+            · cases hy; rfl
+      · unfold cbTask at hy
+        split at hy
+        · cases hy; exact id
+        split at hy
+        · split at hy
+          · cases hy; exact id
+          · cases hy
+        · split at hy
+          · cases hy; exact id
+          · split at hy
+            · cases hy
+            · cases hy; exact id
+      · have hcount := h.count x hx
+        have hk : liveCount (cbKids s.spawnFail x) x.sid = if runs s.spawnFail x then 1 else 0 := by
+          unfold cbKids liveCount; split <;> simp
+        show y.nsim = liveCount s.children x.sid + liveCount (cbKids s.spawnFail x) x.sid
+        rw [hk, ← hcount]
+        unfold cbTask at hy
+        split at hy
+        · rename_i hit
+          cases hy
+          have hit' : x.inTable = false := by simpa using hit
+          simp [runs, hit']
+        split at hy
+        · rename_i hcb
+          have : runs s.spawnFail x = false := by simp [runs, hcb]
+          rw [this]
+          split at hy
+          · cases hy; rfl
+          · cases hy
+        · split at hy
+          · rename_i hr
+            cases hy
+            rw [hr]; rfl
+          · rename_i hr
+            have : runs s.spawnFail x = false := by simpa using hr
+            rw [this]
+            split at hy
+            · cases hy
+            · cases hy; rfl
+    · have hb : (x.sid == sid) = false := by simpa using hxs
+      rw [hb] at hy
+      simp only [Bool.false_eq_true, if_false, Option.some.injEq] at hy
+      subst hy
+      rw [← hrest x hxs]
+      refine ⟨rfl, rfl, id, hx'.frame hf, ?_⟩
+      have : liveCount (onGet s sid (cbKids s.spawnFail)) x.sid = 0 := by
+        unfold liveCount
+        rw [List.length_eq_zero_iff, List.filter_eq_nil_iff]
+        intro c hc
+        have := hkids_sid c hc
+        simp [this]; intro _ e; exact hxs e.symm
+      have hcx := h.count x hx
+      omega
+  · rw [ht]
+    apply seqU_keep _ _ h.seqU
+    intro x hx y hy
+    split at hy
+    · unfold cbTask at hy
+      split at hy
+      · cases hy; rfl
+      split at hy
+      · split at hy
+        · cases hy; rfl
+        · cases hy
+      · split at hy
+        · cases hy; rfl
+        · split at hy
+          · cases hy
+          · cases hy; rfl
+    · cases hy; rfl
+  · intro c hc hl
+    rw [hch, List.mem_append] at hc
+    rcases hc with hc | hc
+    · obtain ⟨x, hx, hs⟩ := h.kids c hc hl
+      refine ⟨x, hx, hs, ?_⟩
+      have hpos : 1 ≤ x.nsim := by
+        rw [h.count x hx, hs]; exact liveCount_pos hc hl
+      split
+      · unfold cbTask
+        split
+        · simp
+        split
+        · split
+          · simp
+          · rename_i hz; exact absurd (by simpa using hz) (by omega : ¬ x.nsim = 0)
+        · split
+          · simp
+          · split
+            · rename_i hz
+              simp only [Bool.and_eq_true, beq_iff_eq] at hz
+              omega
+            · simp
+      · simp
+    · cases hg : s.get sid with
+      | none => rw [onGet_none _ hg] at hc; cases hc
+      | some t =>
+        rw [onGet_some _ hg] at hc
+        obtain ⟨htm, hts⟩ := get_some_mem hg
+        refine ⟨t, htm, ?_, ?_⟩
+        · simp only [cbKids] at hc
+          split at hc
+          · simp only [List.mem_singleton] at hc; rw [hc]
+          · cases hc
+        · simp only [cbKids] at hc
+          split at hc
+          · rename_i hr
+            have hb : (t.sid == sid) = true := by simpa using hts
+            rw [if_pos hb]
+            have hr' := hr
+            simp only [runs, Bool.and_eq_true, Bool.not_eq_eq_eq_not, Bool.not_true] at hr'
+            unfold cbTask
+            simp [hr, hr'.1.1.1, hr'.1.1.2]
+          · cases hc
+
+/-- all pending callbacks -/
+theorem Inv_cbFold : ∀ (L : List Nat) (s : St) (sps : List Spawn), InvP L s → L.Nodup →
+    Inv (L.foldl cbStep (s, sps)).1 := by
+  intro L
+  induction L with
+  | nil => intro s sps h _; exact h
+  | cons sid rest ih =>
+    intro s sps h hnd
+    rw [List.nodup_cons] at hnd
+    rw [List.foldl_cons]
+    have := InvP_cbStep sps h hnd.1
+    exact ih (cbStep (s, sps) sid).1 (cbStep (s, sps) sid).2 this hnd.2
+
+/-- a whole loop iteration, with or without a child reaped in it -/
+theorem Inv_iter {s : St} {now : Nat} (ko : Option Nat) (h : Inv s) (hnow : s.now ≤ now) :
+    Inv (iter s now ko).1 := by
+  obtain ⟨s1, L, hr, hnd, h1, _, _⟩ := InvP_reify h hnow
+  unfold iter
+  rw [hr, runPending_eq]
+  simp only []
+  apply Inv_cbFold L _ [] _ hnd
+  cases ko with
+  | none => exact h1
+  | some k => exact InvP_exit k h1
 
 end Echse.Daemon
